@@ -21,7 +21,7 @@ import subprocess
 import sys
 
 VERIF = os.path.dirname(os.path.dirname(os.path.abspath(__file__)))
-WT = "/tmp/sc-wt"
+WT = os.environ.get("SC_WT", "/tmp/sc-wt")      # SC_WT: another scratch worktree (parallel runs)
 
 
 def sh(cmd, cwd=WT, timeout=3600, env=None):
@@ -56,7 +56,7 @@ def main():
         l = re.sub(r"^\d+[.)]\s+(?=(cp|cd|cargo|git|mkdir)\b)", "", l)      # "1. cp ..." enumerations
         l = l.replace("<checkout>", WT).replace("<repo>", WT)
         l = re.sub(r"^cd \S+\s*&&\s*", "", l)
-        l = re.sub(r"/tmp/seed[234]?-C\d+", WT, l)
+        l = re.sub(r"/tmp/seed[2345]?-C\d+", WT, l)
         l = l.replace("<worktree>", WT).replace("<this dir>/../", seed + "/").replace("<this dir>", demo_dir)
         l = re.sub(r"^git apply (\S*/)?patch\.diff$", "git apply " + patch, l)
         # ENV=... cargo ...  ->  keep the assignments as a prefix the shell understands, mark as cargo
